@@ -28,7 +28,7 @@ type c09Scn struct {
 	Side   int     `json:"side"`
 }
 
-var c09Kinds = []string{"close", "close2", "abort", "connclose", "readerr", "writeerr"}
+var c09Kinds = []string{"close", "close2", "abort", "connclose", "readerr", "writeerr", "readeof", "writeeof"}
 
 func genC09Base(rt *rapid.T) c09Base {
 	var b c09Base
@@ -192,7 +192,7 @@ func runC09(t *testing.T, x c09Scn, verbose bool) (c vfCase, out c09Out) {
 		X, Y := x.Side, 1-x.Side
 		// when did side X effectively go down?
 		down := out.injAt
-		if x.Kind == "writeerr" {
+		if x.Kind == "writeerr" || x.Kind == "writeeof" {
 			// a write failure is only noticed at the next write attempt
 			s.net.conns[X].mu.Lock()
 			fw := s.net.conns[X].firstWErr
